@@ -7,6 +7,7 @@ import (
 	"path/filepath"
 	"runtime"
 	"strings"
+	"sync"
 	"time"
 
 	"github.com/maypok86/otter/v2"
@@ -389,15 +390,18 @@ func (t *Trial) zeroWeightOverflow() (string, int) {
 	return "", n
 }
 
-var siteIdx map[string]int
+var (
+	siteIdx  map[string]int
+	siteOnce sync.Once
+)
 
 func siteIndex(name string) int {
-	if siteIdx == nil {
+	siteOnce.Do(func() {
 		siteIdx = map[string]int{}
 		for i, n := range otter.VerifSiteNames() {
 			siteIdx[n] = i
 		}
-	}
+	})
 	if i, ok := siteIdx[name]; ok {
 		return i
 	}
